@@ -179,8 +179,24 @@ fn process_dir(
     // As WalkDir seems not providing a function to check its stack,
     // using current_dir is a workaround to check leaving directory.
     let mut current_dir: Option<PathBuf> = None;
-    while let Some(result) = it.next() {
-        match WalkEntry::from_walkdir(result, config.follow) {
+    // Under -depth a starting point has to come after everything below it, but
+    // walkdir yields a starting point that is a symbolic link to a directory (-H)
+    // *before* its contents even with contents_first, so the starting point is
+    // held back until the walk below it is over.
+    let mut deferred_root: Option<WalkEntry> = None;
+    let mut walk_done = false;
+    loop {
+        let next = match it.next() {
+            Some(result) => WalkEntry::from_walkdir(result, config.follow),
+            None => {
+                walk_done = true;
+                match deferred_root.take() {
+                    Some(entry) => Ok(entry),
+                    None => break,
+                }
+            }
+        };
+        match next {
             Err(err) => {
                 ret = 1;
                 writeln!(&mut stderr(), "Error: {err}").unwrap();
@@ -190,6 +206,10 @@ fn process_dir(
                 // broken symbolic links whatever their depth, so enforce the lower
                 // bound here as well.
                 if entry.depth() < config.min_depth {
+                    continue;
+                }
+                if config.depth_first && entry.depth() == 0 && !walk_done {
+                    deferred_root = Some(entry);
                     continue;
                 }
 
